@@ -1,6 +1,11 @@
 package klock
 
-import "verif/harness/vh"
+import (
+	"embed"
+	"encoding/json"
+
+	"verif/harness/vh"
+)
 
 var dirs3 = []string{"restart", "stop", "resume"}
 
@@ -338,4 +343,24 @@ func Generate(r *vh.RNG) *Scenario {
 	return scn
 }
 
-func Corpus() []Case { return nil }
+//go:embed corpus/*.json
+var corpusFS embed.FS
+
+// Corpus: hand-made or minimised cases that run first (schedules that the random generator reaches too rarely).
+func Corpus() []Case {
+	var out []Case
+	ents, _ := corpusFS.ReadDir("corpus")
+	for _, e := range ents {
+		b, err := corpusFS.ReadFile("corpus/" + e.Name())
+		if err != nil {
+			continue
+		}
+		var f struct {
+			Case Case `json:"case"`
+		}
+		if json.Unmarshal(b, &f) == nil {
+			out = append(out, f.Case)
+		}
+	}
+	return out
+}
